@@ -430,7 +430,8 @@ class AttributeCollection(MutableMapping[int, Attribute]):
         """Decode the first attribute of data, return what follows it (empty: stop)."""
         try:
             # We do not care if the attribute are transitive or not as we do not redistribute
-            flag = Attribute.Flag(data[0])
+            # RFC 4271 4.3: the four low-order bits of the flags are unused, "MUST be ignored when received"
+            flag = Attribute.Flag(data[0] & 0xF0)
             aid = data[1]
         except IndexError:
             self.add(TreatAsWithdraw())
